@@ -10,8 +10,8 @@ import (
 
 // recreateDuringDeletion: "create, write, delete, re-create" with the re-creation attempted WHILE the old instance is
 // still being wiped.  Deletion is asynchronous (DeleteDataByName marks the instance and returns; a goroutine removes its
-// entries and only then frees the name).  The wrapping store engine delays write-class calls, which holds that goroutine
-// inside the wipe for as long as the scenario needs - the interleaving is forced, not hoped for.  The server may refuse
+// entries and only then frees the name).  The wrapping store engine holds that goroutine's DeleteAll call for a chosen
+// time (no other store call is slowed) - the interleaving is forced, not hoped for.  The server may refuse
 // the name until the wipe is over or accept it at once; either way, once a re-creation was ACCEPTED, the end of the old
 // instance's deletion must not change what the new instance (different instance id) or a bystander returns.
 func recreateDuringDeletion(c *drv.Ctx, bin string, rounds int) error {
@@ -69,8 +69,8 @@ func recreateDuringDeletion(c *drv.Ctx, bin string, rounds int) error {
 				return err
 			}
 		}
-		// hold the wipe: every write-class store call (the wipe's delete batches included) now waits first
-		if err := w.SetDelay(0, int64(400+200*round)*1000, false); err != nil {
+		// hold the wipe (and only the wipe) open
+		if err := w.SetWipeDelay(int64(400+200*round) * 1000); err != nil {
 			return err
 		}
 		if err := w.API("c06.delete", map[string]string{"root": root, "name": name}, nil); err != nil {
